@@ -111,13 +111,13 @@ def mapCase (id : String) (payload : List Sexp) : List String :=
   | none => err id "bad-map-case"
   | some c =>
     match c.prop with
-    | "C05" => both id (obsGen c.inp (obs15 c.inp ++ obsRT c.inp ++ obsPart c.inp c.srcSlots c.destSlots c.masks c.fmasks))
+    | "C05" => both id (obs15 c.inp ++ obsRT c.inp ++ obsPart c.inp c.srcSlots c.destSlots c.masks c.fmasks)
                  (spec15 c.inp ++ specRT c.inp ++ specPart c.inp c.srcSlots c.destSlots c.masks c.fmasks)
-                 (regionGen c.inp (region05 c.inp) "Out")   -- obs05 + write counts + round trip + partially nil chains
-    | "C01" => both id (obsGen c.inp (obs01 c.inp)) allOk (regionGen c.inp (region01 c.inp) "F_mapSelfEmbed")
-    | "C15" => both id (obsGen c.inp (obs15 c.inp)) (spec15 c.inp) (regionGen c.inp (region15 c.inp) "Out")
-    | "C09" => both id (obsGen c.inp (obs09 c.inp c.srcSlots c.destSlots c.masks c.fmasks))
-                 (spec09 c.inp c.srcSlots c.destSlots c.masks c.fmasks) (regionGen c.inp (region09 c.inp) "F_selfEmbed")
+                 (region05 c.inp)   -- obs05 + write counts + round trip + partially nil chains
+    | "C01" => both id (obs01 c.inp) allOk (region01 c.inp)
+    | "C15" => both id (obs15 c.inp) (spec15 c.inp) (region15 c.inp)
+    | "C09" => both id (obs09 c.inp c.srcSlots c.destSlots c.masks c.fmasks)
+                 (spec09 c.inp c.srcSlots c.destSlots c.masks c.fmasks) (region09 c.inp)
     | _ => err id "unknown-prop"
 
 end ShootVerif.Drive
